@@ -198,6 +198,20 @@ func init() {
 					out = append(out, c)
 				}
 			}
+			// the tree's main clients over an integer element type (extremes of int8 included)
+			mp := 3
+			if tier == "thorough" {
+				mp = 4
+			}
+			for p := 1; p <= mp; p++ {
+				for n := p; n <= p+2; n++ {
+					for isMin := 0; isMin <= 1; isMin++ {
+						c := cs("H_C17_MovingInt", p, n, isMin)
+						c.MaxPaths = 20000
+						out = append(out, c)
+					}
+				}
+			}
 			return out
 		},
 	}
